@@ -126,6 +126,90 @@ def run(names_path):
         rej, _ = validate(c, "Trace_Read", rcfg)
         print(f"  [{'ok' if rej else 'FAIL'}] reader trace with a corrupted {name} rejected")
         ok &= rej
+    # the loaders under strace: system calls and allocator calls against Trace_Loader.tla
+    from . import loadertrace
+    lcases = [{"loader": lo, "flags": fl, "cause": ca, "ty": ty, "n": 5, "ops": ops, "prior": pr}
+              for lo in ("load_full", "load_mem", "load_mmap", "mmap") for fl, ca, ty, ops, pr in
+              ((0, "valid", "vec8", [], "absent"), (5, "valid", "canary", ["move", "box", "send"], "longer"),
+               (2, "wrongtype", "vec64", [], "shorter"), (0, "empty", "vec8", [], "absent"), (7, "valid", "canary", ["arc2"], "absent"))]
+    levents, _ = loadertrace.record(lcases, tag)
+    lraw = [json.dumps(e) for e in levents]
+    lcfg = os.path.join(WORK, tag, "tloader.cfg")
+    write_cfg(lcfg, {"MaxSteps": 64, "BugNoTruncate": False, "BugLeakOnError": False}, init="TInit", next_="TNext",
+              invariants=["Furthest"], extra="POSTCONDITION Accepted")
+    rej, r = validate(lraw, "Trace_Loader", lcfg)
+    good = not rej and r.error is None
+    print(f"  [{'ok' if good else 'FAIL'}] unmodified loader system-call trace accepted ({len(lraw)} events, {len(lcases)} cases)")
+    ok &= good
+
+    def drop_first(lines, pred):
+        out, done = [], False
+        for ln in lines:
+            e = json.loads(ln)
+            if not done and pred(e):
+                done = True
+                continue
+            out.append(ln)
+        return out if done else None
+
+    def swap_first(lines, a, b):
+        es = [json.loads(x) for x in lines]
+        for i in range(len(es) - 1):
+            if es[i]["ev"] == a and es[i + 1]["ev"] == b:
+                es[i], es[i + 1] = es[i + 1], es[i]
+                return [json.dumps(e) for e in es]
+        return None
+    ltests = [
+        ("mapping length", corrupt(lraw, lambda e: e["ev"] == "map" and not e["anon"], lambda e: e.__setitem__("len", e["len"] + 11))),
+        ("mapping protection", corrupt(lraw, lambda e: e["ev"] == "map" and not e["anon"], lambda e: e.__setitem__("prot", "rw"))),
+        ("heap region size", corrupt(lraw, lambda e: e["ev"] == "halloc", lambda e: e.__setitem__("size", e["size"] - 48))),
+        ("read length", corrupt(lraw, lambda e: e["ev"] == "read" and e["want"] < 8192, lambda e: e.__setitem__("got", e["got"] - 1))),
+        ("advice", corrupt(lraw, lambda e: e["ev"] == "advise" and e["advice"] == "RANDOM", lambda e: e.__setitem__("advice", "SEQUENTIAL"))),
+        ("missing advice", drop_first(lraw, lambda e: e["ev"] == "advise")),
+        ("O_TRUNC flag (older, longer file at the path)", corrupt(lraw, lambda e: e["ev"] == "create", lambda e: e.__setitem__("trunc", False))
+         if False else None),
+        ("missing release after a failed load", None),
+        ("missing release at drop", drop_first(lraw, lambda e: e["ev"] == "unmap")),
+        ("double release", None),
+        ("release before the structure's drop", swap_first(lraw, "sdrop", "unmap")),
+    ]
+    # the cases that need a position: built by hand
+    es = [json.loads(x) for x in lraw]
+    # O_TRUNC missing in a case whose prior file was longer
+    cur, out, done = None, [], False
+    for e in es:
+        if e["ev"] == "case":
+            cur = e
+        if not done and e["ev"] == "create" and cur["prior"] == "longer":
+            e = dict(e, trunc=False)
+            done = True
+        out.append(json.dumps(e))
+    ltests[6] = ("O_TRUNC flag (older, longer file at the path)", out if done else None)
+    # the release on the error path removed (wrongtype, load_mmap)
+    cur, out, done = None, [], False
+    for e in es:
+        if e["ev"] == "case":
+            cur = e
+        if not done and e["ev"] in ("unmap", "hfree") and cur["cause"] == "wrongtype":
+            done = True
+            continue
+        out.append(json.dumps(e))
+    ltests[7] = ("missing release after a failed load", out if done else None)
+    out, done = [], False
+    for e in es:
+        out.append(json.dumps(e))
+        if not done and e["ev"] == "unmap":
+            out.append(json.dumps(e))
+            done = True
+    ltests[9] = ("double release", out if done else None)
+    for name, c in ltests:
+        if c is None:
+            print(f"  [FAIL] no event to corrupt for {name}")
+            ok = False
+            continue
+        rej, _ = validate(c, "Trace_Loader", lcfg)
+        print(f"  [{'ok' if rej else 'FAIL'}] loader trace with a corrupted {name} rejected")
+        ok &= rej
     craw = harness(["cursor", "record", "3", "4", "60"]).splitlines()
     ccfg = os.path.join(WORK, tag, "tcur.cfg")
     open(ccfg, "w").write("INIT TInit\nNEXT TNext\nCHECK_DEADLOCK FALSE\nPOSTCONDITION Accepted\n")
